@@ -4,7 +4,7 @@
 usage: tools/seedcheck.py <dir with patch.diff, demo.py, meta.json> [--keep <id>] [--checks C03,C10] [--tier quick]
 
 1. scratch copy of /repo HEAD (git archive) outside /repo and /verif; apply patch.diff
-2. the repository's test suite on the patched copy (must equal the baseline: 364 passed / 36 failed since fix 7246e8a added a doctest; 363 before)
+2. the repository's test suite on the patched copy (must equal the baseline: 365 passed / 36 failed since the fixes 7246e8a and d9ace29 added doctests; 363 before)
 3. demo.py on the patched copy (must exit non-zero) and on /repo (must exit 0)
 4. ./check <property> quick against the patched copy (VERIF_REPO / VERIF_OUT) -> CAUGHT / MISSED
 5. with --keep <id>: copies patch.diff, demo.py and an augmented meta.json to /verif/seeded/<id>/
